@@ -200,6 +200,10 @@ func (h *header) encode(dst []byte) (int, error) {
 func (h *header) decode(src []byte) (int, error) {
 	total := 0
 
+	if len(src) < 2 {
+		return 0, fmt.Errorf("header/Decode: Insufficient buffer size. Expecting at least %d, got %d", 2, len(src))
+	}
+
 	h.dbuf = src
 
 	mtype := h.Type()
@@ -227,6 +231,9 @@ func (h *header) decode(src []byte) (int, error) {
 	total++
 
 	remlen, m := binary.Uvarint(src[total:])
+	if m <= 0 || m > 4 {
+		return total, fmt.Errorf("header/Decode: Remaining length is truncated or longer than 4 bytes")
+	}
 	total += m
 	h.remlen = int32(remlen)
 
